@@ -539,6 +539,7 @@ def c09(tier, replay):
         return run.finish()
     big_slices(run, h, rng, 150 if q else 600)
     slice_proof(run, other == 0)
+    go_sequences(run, tier)
     # timed part: the real delay against the plan (the colour decides which clock counts)
     binary = vcommon.build_binary(False)
     live, _ = pool(h, vcommon.seed() + 2, 6, 2, 0, 6)
@@ -804,6 +805,8 @@ def position_dumps(run, pid, tier):
                     starts.append({"ev": "hk", "h": "go_start", "seq": e["seq"], "expired": False,
                                    "board": {"r": b["r"], "stm": b["stm"], "cr": b["cr"], "ep": b["ep"], "d": b["d"]},
                                    "table": [[x[0], x[1]] for x in e["table"] if x[1] != 0]})
+                    if len(str(e.get("slice", ""))) <= 9 and str(e.get("slice", "")).isdigit():
+                        starts[-1]["slice"] = int(e["slice"])
         searched, cur = set(), None
         for i, e in enumerate(evs):
             if e["ev"] == "in" and e.get("go"):
@@ -828,7 +831,7 @@ def position_dumps(run, pid, tier):
     run.cov["position_dumps_from_real_loop"] = totals.get("posdumps", 0)
 
 
-def thread_events(run, pid, tier, with_tables=False):
+def thread_events(run, pid, tier, with_tables=False, sessions_override=None):
     """The instrumented binary writes one event per linearization point of Walleye.tla's actions (go_start, srch_send,
     io_recv, io_exit) under a global sequence number; TraceUci replays them against the model's channel / best / root."""
     rng = random.Random(vcommon.seed() * 31 + 33)
@@ -843,6 +846,9 @@ def thread_events(run, pid, tier, with_tables=False):
         for _ in range(rng.randint(2, 5)):
             steps.append({"do": "go", "line": rng.choice(GO_ZERO + GO_SMALL + ["go wtime %d btime %d movestogo 1" % ((rng.randint(101, 160),) * 2)])})
         sessions.append(steps)
+    if sessions_override is not None:
+        sessions = sessions_override(live, rng)
+    for i in range(len(sessions)):
         traces.append(os.path.join(d, "hook%03d.ndjson" % i))
     plan(h, sessions)
     logs = run_sessions(binary, sessions, 8, traces)
@@ -875,6 +881,8 @@ def thread_events(run, pid, tier, with_tables=False):
                     starts.append({"ev": "hk", "h": "go_start", "seq": e["seq"], "expired": False,
                                    "board": {"r": b["r"], "stm": b["stm"], "cr": b["cr"], "ep": b["ep"], "d": b["d"]},
                                    "table": [[x[0], x[1]] for x in e["table"] if x[1] != 0]})
+                    if len(str(e.get("slice", ""))) <= 9 and str(e.get("slice", "")).isdigit():
+                        starts[-1]["slice"] = int(e["slice"])
             # a go answered with the null move never reached the search (no go_start); every other go did
             searched = set()
             cur = None
@@ -896,9 +904,38 @@ def thread_events(run, pid, tier, with_tables=False):
         merged = merged2
     shutil.rmtree(d, ignore_errors=True)
     totals = validate(run, pid, "hooks", merged, scripts=sessions, binary=None)
-    if totals.get("hook_recvs", 0) < 10:
+    if sessions_override is None and totals.get("hook_recvs", 0) < 10:
         raise ToolError("coverage hole: fewer than 10 receive events from the instrumented binary")
-    run.cov["thread_events_validated"] = totals.get("hook_events", 0)
+    run.cov["thread_events_validated"] = run.cov.get("thread_events_validated", 0) + totals.get("hook_events", 0)
+    return totals
+
+
+# go lines whose parameters must not leak into the next go of the same session: each pair (a, b) is served as a then b; if
+# anything of a survived, b's slice would break the contract stated for b's own tokens
+CARRY = [("go wtime 300 btime 300 movestogo 1", "go wtime 3100 btime 3100"),              # moves to go
+         ("go wtime 250 btime 250 winc 2000 binc 2000", "go wtime 90 btime 90"),          # increments
+         ("go wtime 400 btime 400 movestogo 2", "go winc 0 binc 0"),                      # clocks
+         ("go wtime 350 btime 90 movestogo 1", "go btime 350 wtime 90 movestogo 1"),      # colour of the clock
+         ("go wtime 200 btime 200 winc 300 binc 300 movestogo 1", "go"),                  # everything
+         ("go movestogo 1", "go wtime 2500 btime 2500"),                                  # moves to go without clock
+         ("go wtime 150 btime 150 movestogo 1", "go wtime 6100 btime 6100 winc 0 binc 0")]
+
+
+def go_sequences(run, tier):
+    """C09 inside the real command loop (instrumented binary): chains of go commands on one position / with position
+    commands in between; the slice logged at every GoAccept is checked against the tokens of its own go line."""
+    def build(live, rng):
+        sessions = []
+        pairs = CARRY if tier != "quick" else CARRY
+        for a, b in pairs:
+            sessions.append([{"do": "send", "line": rng.choice(live)}, {"do": "go", "line": a}, {"do": "go", "line": b}])
+            sessions.append([{"do": "send", "line": rng.choice(live)}, {"do": "go", "line": a}, {"do": "send", "line": "ucinewgame"},
+                             {"do": "send", "line": rng.choice(live)}, {"do": "go", "line": b}, {"do": "go", "line": a}])
+        return sessions
+    totals = thread_events(run, "C09", tier, with_tables=True, sessions_override=build)
+    if totals.get("hook_events", 0) < 2 * len(CARRY):
+        raise ToolError("coverage hole: fewer go_start events than go sequences")
+    run.cov["go_sequences_with_logged_slice"] = 2 * len(CARRY)
 
 
 def timed_info_lines(run, pid, tier):
